@@ -89,6 +89,12 @@ def attached_comment_range(text: str, b):
     return [(s, e) for s in starts for e in ends]
 
 
+def sibling_named(text: str, name: str) -> bool:
+    """does the target set itself have a binding (or a dotted family) of that name?"""
+    tree = ep.safe_tree(text)
+    return isinstance(tree, dict) and name in tree
+
+
 def multiline_target(text: str) -> bool:
     tgt = cstread.find_target(cstread.ts_parse(text))
     if tgt is None or tgt.start_point[0] == tgt.end_point[0]:
@@ -167,13 +173,16 @@ def check(ctx, h, r):
                 if res[0] not in ("binding", "unbound"):
                     return
                 tv = res[1].child_by_field_name("expression") if res[0] == "binding" else val
-                pre = [t[0] for t in tb if t[2] <= tv.start_byte]
-                post = [t[0] for t in tb if t[1] >= tv.end_byte]
                 newv = [t[0] for t in toks(r.op[2])]
-                if sa != pre + newv + post:
+                # either the defining binding or the binding at the path itself is "the addressed binding" for
+                # C04 (which of the two it has to be is C11's question); anything else is a foreign write
+                cands = [[t[0] for t in tb if t[2] <= x.start_byte] + newv + [t[0] for t in tb if t[1] >= x.end_byte]
+                         for x in (tv, val)]
+                if sa not in cands:
+                    sib = sibling_named(before, vtext.strip())
                     ctx.fail({"clause": "reference-locality", **key0, "resolves": res[0], "binder": c11.binder_kind(res),
                               "separated": c11.separated(res, before), "binder_value": c11.binder_value(res),
-                              "nested": len(names) > 1}, inp,
+                              "nested": len(names) > 1, **({"sibling": True} if sib else {})}, inp,
                              f"{r.op!r} through the reference {vtext.strip()!r}: tokens outside the value of the defining "
                              f"binding changed: {before!r} -> {out!r}")
                 return
